@@ -264,6 +264,11 @@ func c18Run(ctx *vc.Ctx, rep *vc.Report) {
 		{Name: "race:conv:reg-auth-hb", Conns: [][]tmsg{{{ID: 0x0100, Phone: p1, Serial: 1}, {ID: 0x0102, Phone: p1, Serial: 2}, {ID: 0x0002, Phone: p1, Serial: 3}}}, Close: true},
 		{Name: "race:conv:two-conns", Conns: [][]tmsg{{{ID: 0x0100, Phone: p1, Serial: 1}, {ID: 0x0002, Phone: p1, Serial: 2}}, {{ID: 0x0100, V2019: true, Phone: "13900139000", Serial: 1}, {ID: 0x0200, V2019: true, Phone: "13900139000", Serial: 2}}}},
 	}
+	// the server's own default handlers (shared-state hazards between connections live there)
+	convs = append(convs,
+		convScn{Name: "race:conv:plain-two-conns-auth", Plain: true, Conns: [][]tmsg{{{ID: 0x0102, Phone: p1, Serial: 1}, {ID: 0x0801, Phone: p1, Serial: 2}, {ID: 0x1212, Phone: p1, Serial: 3}}, {{ID: 0x0102, V2019: true, Phone: "13900139000", Serial: 1, Variant: 1}, {ID: 0x0801, V2019: true, Phone: "13900139000", Serial: 2, Variant: 1}, {ID: 0x1212, Phone: "13900139000", Serial: 3}}}},
+		convScn{Name: "race:conv:plain-two-conns-mixed", Plain: true, Conns: [][]tmsg{{{ID: 0x0100, Phone: p1, Serial: 1}, {ID: 0x0200, Phone: p1, Serial: 2}, {ID: 0x0704, Phone: p1, Serial: 3}}, {{ID: 0x0100, Phone: "13900139000", Serial: 1}, {ID: 0x0200, Phone: "13900139000", Serial: 2}, {ID: 0x0704, Phone: "13900139000", Serial: 3}}}, Close: true},
+	)
 	for _, s := range c09Scenarios(false) {
 		s.Stab = false
 		s.Name = "race:" + s.Name
